@@ -452,6 +452,7 @@ conc_publisher(void *a)
 		body += (char) (0x80 | (i >> 6));
 		body += (char) (0x80 | (i & 0x3f));
 		w->pub_start[body] = sim_steps();
+		sim_event("pub%d publish %s @%llu", me, show(body).c_str(), (unsigned long long) sim_steps());
 		nng_msg *m = NULL;
 		MUST(nng_msg_alloc(&m, 0));
 		MUST(nng_msg_append(m, body.data(), body.size()));
@@ -484,6 +485,7 @@ conc_receiver(void *a)
 		nng_msg    *m = nng_aio_get_msg(u.aio);
 		std::string body((char *) nng_msg_body(m), nng_msg_len(m));
 		nng_msg_free(m);
+		sim_event("ctx%zu recv %s @%llu", c->idx, show(body).c_str(), (unsigned long long) now);
 		auto ps = w->pub_start.find(body);
 		if (ps == w->pub_start.end())
 			VIOL("altered_message", "ctx %zu received body %s that was never published", c->idx,
@@ -561,6 +563,7 @@ conc_run(Params *p)
 			if (rv != 0)
 				VIOL("subscribe_failed", "subscribe returned %d", rv);
 			c->iv[t].push_back(std::make_pair(sim_steps(), UINT64_MAX));
+			sim_event("ctx%zu initial subscribe %s", c->idx, show(t).c_str());
 		}
 	}
 	for (auto c : w.ctxs)
@@ -573,14 +576,17 @@ conc_run(Params *p)
 		CCtx       *c = w.ctxs[(size_t) W(0, (long) w.ctxs.size() - 1)];
 		std::string t = rand_bytes(2);
 		if (W(0, 1) == 0) {
+			// the interval is opened BEFORE the call: the subscription
+			// may take effect (and a receiver may run) before it returns
 			uint64_t s0 = sim_steps();
+			auto    &v  = c->iv[t];
+			if (v.empty() || v.back().second != UINT64_MAX)
+				v.push_back(std::make_pair(s0, UINT64_MAX));
+			sim_event("ctx%zu subscribe %s @%llu", c->idx, show(t).c_str(), (unsigned long long) s0);
 			int rv = c->is_sock ? nng_sub0_socket_subscribe(w.sub, t.data(), t.size())
 			                    : nng_sub0_ctx_subscribe(c->ctx, t.data(), t.size());
 			if (rv != 0)
 				VIOL("subscribe_failed", "subscribe returned %d", rv);
-			auto &v = c->iv[t];
-			if (v.empty() || v.back().second != UINT64_MAX)
-				v.push_back(std::make_pair(s0, UINT64_MAX));
 		} else {
 			auto it = c->iv.find(t);
 			if (c->is_sock)
@@ -589,6 +595,7 @@ conc_run(Params *p)
 				(void) nng_sub0_ctx_unsubscribe(c->ctx, t.data(), t.size());
 			if (it != c->iv.end() && !it->second.empty() && it->second.back().second == UINT64_MAX)
 				it->second.back().second = sim_steps();
+			sim_event("ctx%zu unsubscribe %s @%llu", c->idx, show(t).c_str(), (unsigned long long) sim_steps());
 		}
 		sim_sleep_ns((uint64_t) W(0, 3000) * 1000);
 	}
